@@ -28,6 +28,10 @@ fn arg_variants() -> Vec<Vec<u8>> {
         // arguments are kept byte for byte: numbers are not re-spelt, names not normalised
         b" 644".to_vec(), b" 0".to_vec(), b" +644".to_vec(), b" 00644".to_vec(), b" 7777".to_vec(), b" 10000".to_vec(),
         b" ./x//y/".to_vec(), b" A b  c ".to_vec(),
+        // dependency / conflict arguments are TEXT here: whether they compile as patterns is not
+        // the packing list's business
+        b" png-[0-9".to_vec(), b" {foo,bar-[0-9]*".to_vec(), b" perl>=5.0<5.30<6".to_vec(), b" lib**".to_vec(), b" foo}b{ar>1.0".to_vec(),
+        b" $NetBSD: PLIST,v 1.2 2024/01/01 00:00:00 x Exp $".to_vec(), b" $NetBSD$".to_vec(),
     ]
 }
 
@@ -93,6 +97,11 @@ fn gen_c14(tier: &str, rng: &mut Rng, emit: &mut dyn FnMut(Op)) {
         emit(Op::new("plist.entry", &[l]));
         emit(Op::new("plist.parse", &[l]));
     }
+    // the first line is an entry like any other, also when it carries an expanded RCS Id
+    for d in [&b"@comment $NetBSD: PLIST,v 1.2 2024/01/01 00:00:00 x Exp $\nbin/foo\n"[..], b"@comment $NetBSD$\nbin/foo\n",
+        b"\n@comment $NetBSD: x $\n@comment $NetBSD: y $\n", b"@comment $NetBSD: only $", b"@name a-1\n@comment $NetBSD: second $\n"] {
+        emit(Op::new("plist.parse", &[d]));
+    }
     // an unparsable LAST line, terminated or not, after lines that parsed
     for bad in [&b"@pkgd"[..], b"@name", b"@ignore x", b"@name \xff", b"@option x", b"@"] {
         for pre in [&b"bin/foo\n"[..], b"@name a-1\nbin/foo\n", b""] {
@@ -123,7 +132,9 @@ fn gen_c14(tier: &str, rng: &mut Rng, emit: &mut dyn FnMut(Op)) {
 
 fn gen_c15(tier: &str, rng: &mut Rng, emit: &mut dyn FnMut(Op)) {
     let thorough = tier == "thorough";
-    let kinds: [&[u8]; 54] = [
+    let kinds: [&[u8]; 59] = [
+        // "first of theirs", returned as stored: trailing blanks are part of the argument
+        b"@name foo-1.0 ", b"@name foo-1.0\t", b"@display MESSAGE ", b"@name  bar-2 \xc2\xa0", b"@cwd share",
         // the same directory named by @pkgdir and @dirrm; numeric @mode spellings
         b"@dirrm share/x", b"@pkgdir share/y", b"@mode 644", b"@mode 0", b"@mode +644", b"@mode 00644",
         // @cwd arguments combining features: non-UTF-8 AND a trailing '/', blanks, only '/'
